@@ -211,6 +211,11 @@ def builtinArity (t : String) : Nat × Bool :=
   else if t == "PRINT" || t == "LOG" || t == "ERROR" then (1, true)
   else (1, false)
 
+/-- the name recorded with an in-place append hazard: the identifier on the left of the `+`, if it is one -/
+def hazardBase : Node → String
+  | .ident n => n
+  | _ => ""
+
 mutual
 
 /-- `(*State).Eval`: depth guard, unwrap return values and one reference level -/
@@ -263,7 +268,7 @@ def evalI : Nat → Node → M Obj
         if right.isError then return right
         if let .array els := left then
           noteHazard (op == "PLUS" && els.length > (← get).cfg.maxSmallArray) "large-array-append-shares-capacity"
-            (match l with | .ident n => n | _ => "")
+            (hazardBase l)
         evalInfixOp op left right
     | .int v => pure (.int v)
     | .float b => pure (.float b)
